@@ -379,6 +379,9 @@ class Prop:
         x = r.random()
         if x < 0.15:
             return {"k": "assign_bad", "how": r.choice(["tuple", "none", "int", "wrongkind"])}
+        if x < 0.25:
+            # 'del holder.trait': back to the declared default (which obeys the bounds)
+            return {"k": "reset"}
         n = r.randint(0, 5)
         if bounds and r.random() < 0.5:
             n = r.choice([max(0, bounds[0] - 1), bounds[0], min(bounds[1], 7), min(bounds[1], 6) + 1])
@@ -430,6 +433,9 @@ class Prop:
             return None, "skip", False
         if k == "assign_bad":
             return None, {"TraitError"}, False
+        if k == "reset":
+            model[on] = self.initial_model(li_bounds[0])[on]
+            return None, None, False
         if k == "assign":
             try:
                 if ckind == "dict":
@@ -560,6 +566,8 @@ class Prop:
                 bad = {"tuple": (1, 2), "none": None, "int": 5,
                        "wrongkind": {1} if ckind != "set" else [1]}[op["how"]]
                 ret, e = sut(setattr, h, name, bad)
+            elif k == "reset":
+                ret, e = sut(delattr, h, name)
             elif ckind == "list":
                 ret, e = c05.sut_list_apply(target, op)
             elif ckind == "dict":
